@@ -65,6 +65,13 @@ var c05 = gen.Register(&gen.Check[caseC05]{
 				a = pt.Base{Kind: "id"}
 			}
 		}
+		for _, bb := range []*pt.Base{&a, &b} {
+			if bb.Kind == "id" {
+				// the identity is set through Identity(), Decode(00) or Multiply(nil), possibly into a zero-value struct
+				bb.Via = rapid.SampledFrom([]string{"coords", "comp", "mulnil"}).Draw(t, "idVia")
+				bb.ZeroRecv = gen.Chance(t, "zeroRecvId", 1, 3)
+			}
+		}
 		c.A = pt.WithSteps(t, a, 3, false)
 		c.B = pt.WithSteps(t, b, 3, false)
 		if rapid.Bool().Draw(t, "swap") {
@@ -94,6 +101,7 @@ var c05 = gen.Register(&gen.Check[caseC05]{
 	},
 	Required: []string{"aimed-cross-product", "rel:line", "rel:same", "rel:neg", "rel:endo", "rel:vs-identity", "rel:id-id", "rel:unrelated", "equal", "unequal"},
 	Run: func(c caseC05, o *gen.Obs) error {
+		hostileCaller()
 		a, err := pt.Build(c.A)
 		if err != nil {
 			o.Class("skipped:builder-error")
